@@ -289,7 +289,11 @@ def main(argv):
     # mirror the CLI exit status so that the supervisor sees the real process-level result
     code = 0 if o.kind == "ok" else (o.exit_code if isinstance(o.exit_code, int) and o.exit_code else 1)
     sys.stdout.flush()
-    os._exit(code)
+    log("driver_exit", code=code)
+    # leave the way the real command does (sys.exit -> interpreter shutdown -> multiprocessing's exit
+    # handlers, which join queue feeder threads and child processes): a command that cannot get
+    # through its own shutdown has not exited
+    sys.exit(code)
 
 
 if __name__ == "__main__":
